@@ -31,6 +31,12 @@ type maker struct {
 	pre  func(src string) command
 }
 
+// a hotmulti rival: a command on the contested key and the command that prepares that key
+type rivalMaker struct {
+	maker
+	preK func(k string) command
+}
+
 func creators() []maker {
 	v := func(round int) string { return fmt.Sprintf("v%d", round) }
 	return []maker{
@@ -67,8 +73,19 @@ func creators() []maker {
 	}
 }
 
-func runPairs(r *rng, rounds int, outdir string, skip, focus map[string]bool, tier string) (string, map[string]string, error) {
-	dir := filepath.Join(outdir, "pairs")
+// hot == nil: the ordinary pairs phase.  hot = multi-key commands named by a broken lock
+// obligation: the "hotmulti" phase -- every round runs one of them (old name / source -> contested
+// key k) against a read-modify-write command on k that holds k's stripe for a while (a big value
+// makes APPEND copy under the lock), with the source chosen, by the implementation's own hash, so
+// that the rounds cycle through the three relations of (source, k): same lock stripe, same map
+// shard but different stripe, different shard.  A lock set that shrank for one key shape only
+// shows on that shape.
+func runPairs(r *rng, rounds int, outdir string, skip, focus map[string]bool, tier string, hot []string) (string, map[string]string, error) {
+	phaseName := "pairs"
+	if hot != nil {
+		phaseName = "hotmulti"
+	}
+	dir := filepath.Join(outdir, phaseName)
 	if err := os.MkdirAll(dir, 0o755); err != nil {
 		return "", nil, err
 	}
@@ -155,7 +172,26 @@ rounds:
 			n = 3
 		}
 		chosen := []maker{}
-		if len(foc) > 0 {
+		hotSrc := ""
+		if hot != nil {
+			named, rival := hotRound(menu, hot, round)
+			if named == nil {
+				break
+			}
+			chosen = []maker{*named, rival.maker}
+			n = 2
+			hotSrc = relatedKey(k, round%3, round)
+			if rival.preK != nil {
+				pc := rival.preK(k)
+				now := time.Now()
+				inv := clock.Add(1)
+				out := execInProc(mgr, toBytes(pc))
+				res := clock.Add(1)
+				recs = append(recs, record{thread: -1, seq: nsetup, inv: inv, res: res, sec: now.Unix(), ms: now.UnixMilli(),
+					rsec: now.Unix(), rms: now.UnixMilli(), args: pc, reply: out})
+				nsetup++
+			}
+		} else if len(foc) > 0 {
 			chosen = append(chosen, foc[r.intn(len(foc))])
 		}
 		for len(chosen) < n {
@@ -175,6 +211,9 @@ rounds:
 		msg := &roundMsg{id: int64(round) + 1, n: len(chosen)}
 		for w := 0; w < len(chosen); w++ {
 			src := fmt.Sprintf("q%d.%d", round, w)
+			if hotSrc != "" {
+				src = hotSrc
+			}
 			if chosen[w].pre != nil {
 				pc := chosen[w].pre(src)
 				now := time.Now()
@@ -263,4 +302,76 @@ func (r *rng) shuffleMakers(xs []maker) {
 		j := r.intn(i + 1)
 		xs[i], xs[j] = xs[j], xs[i]
 	}
+}
+
+// key with a chosen relation to k under the implementation's hash:
+// 0 = same lock stripe, 1 = same map shard but another stripe, 2 = another shard
+func relatedKey(k string, relation int, round int) string {
+	hk := util.HashKey(k)
+	for i := 0; ; i++ {
+		c := fmt.Sprintf("g%d.%d", round, i)
+		hc := util.HashKey(c)
+		sameStripe := hc%(2*shardNum) == hk%(2*shardNum)
+		sameShard := hc%shardNum == hk%shardNum
+		switch relation {
+		case 0:
+			if sameStripe {
+				return c
+			}
+		case 1:
+			if sameShard && !sameStripe {
+				return c
+			}
+		default:
+			if !sameShard {
+				return c
+			}
+		}
+	}
+}
+
+// the named multi-key command of this round and a rival that read-modify-writes the contested key
+func hotRound(menu []maker, hot []string, round int) (*maker, rivalMaker) {
+	var named *maker
+	cands := []maker{}
+	for _, mk := range menu {
+		for _, h := range hot {
+			if mk.name == h && mk.pre != nil {
+				cands = append(cands, mk)
+			}
+		}
+	}
+	if len(cands) == 0 {
+		return nil, rivalMaker{}
+	}
+	named = &cands[(round/3)%len(cands)]
+	big := strings.Repeat("a", 16<<10)
+	strRivals := []rivalMaker{
+		{maker{"append", func(k, _ string, r int) command { return command{"APPEND", k, "x"} }, nil},
+			func(k string) command { return command{"SET", k, big} }},
+		{maker{"incrby", func(k, _ string, r int) command { return command{"INCRBY", k, "7"} }, nil},
+			func(k string) command { return command{"SET", k, "5"} }},
+		{maker{"setrange", func(k, _ string, r int) command { return command{"SETRANGE", k, "1", "zz"} }, nil},
+			func(k string) command { return command{"SET", k, big} }},
+	}
+	listRivals := []rivalMaker{
+		{maker{"rpush", func(k, _ string, r int) command { return command{"RPUSH", k, fmt.Sprintf("r%d", r)} }, nil},
+			func(k string) command { return command{"RPUSH", k, "d1", "d2"} }},
+		{maker{"lpop", func(k, _ string, r int) command { return command{"LPOP", k} }, nil},
+			func(k string) command { return command{"RPUSH", k, "d1", "d2"} }},
+	}
+	setRivals := []rivalMaker{
+		{maker{"sadd", func(k, _ string, r int) command { return command{"SADD", k, fmt.Sprintf("s%d", r)} }, nil},
+			func(k string) command { return command{"SADD", k, "d1"} }},
+		{maker{"srem", func(k, _ string, r int) command { return command{"SREM", k, "d1"} }, nil},
+			func(k string) command { return command{"SADD", k, "d1", "d2"} }},
+	}
+	rivals := strRivals
+	switch named.name {
+	case "lmove":
+		rivals = listRivals
+	case "smove", "sunionstore", "sinterstore", "sdiffstore":
+		rivals = setRivals
+	}
+	return named, rivals[(round/(3*len(cands)))%len(rivals)]
 }
